@@ -913,6 +913,13 @@ func stateFoundArrayEnd(s *Scanner) state {
 // such as after reading `{}` or `[1,2,3]`.
 // Only space characters should be seen now.
 func stateEndTop(s *Scanner, c byte) state {
+	if s.hasTrailingCharacters {
+		// The end of the schema was found on the previous byte; deliver it before
+		// anything else (a line break, comment or annotation start) is looked at.
+		s.found(lexeme.EndTop)
+		return scanContinue
+	}
+
 	switch {
 	case s.isNewLine(c):
 		s.found(lexeme.NewLine)
@@ -940,9 +947,6 @@ func stateEndTop(s *Scanner, c byte) state {
 		}
 	}
 
-	if s.hasTrailingCharacters {
-		s.found(lexeme.EndTop)
-	}
 	return scanContinue
 }
 
